@@ -476,7 +476,47 @@ def gen_ops(rng, tier_max):
                 o["f"] = rng.choice([0] + [i + 1 for i in range(len(filters))] * 2)
         valid_ids = [i + 1 for i, f in enumerate(filters) if not f.get("invalid")]
         case["ops"] = [{"op": "reopen", "f": rng.choice(valid_ids)}] + extra
-        if rng.random() < 0.7:
+        if rng.random() < 0.4:
+            # tables with DIFFERENT column sets behind ONE handle whose terms each apply to only some of them, loaded in
+            # every order, the same key again after clear_cache: the handle's filter must stay what it was opened with
+            level_sets = rng.sample([["age", "year"], ["draw_id", "sex"], ["age_start", "year"], ["age", "draw_id"], ["sex", "age_start"]],
+                                    rng.randint(2, 3))
+            pools = dict(HANDLE_LEVELS, sex=["Female", "Male"])
+            tabs = []
+            for names in level_sets:
+                seen_t, tuples = set(), []
+                for _ in range(30):
+                    tp = tuple(rng.choice(pools[n]) for n in names)
+                    if tp not in seen_t:
+                        seen_t.add(tp)
+                        tuples.append(list(tp))
+                    if len(tuples) == 5:
+                        break
+                tabs.append({"t": "frame", "names": names, "index": tuples,
+                             "cols": {"value": [0.5 * i for i in range(len(tuples))], "draw_0": [1.0] * len(tuples)}})
+            all_levels = sorted({n for names in level_sets for n in names})
+            only_some = [n for n in all_levels if sum(n in names for names in level_sets) < len(level_sets)] or all_levels
+            terms = []
+            for n in rng.sample(only_some, min(len(only_some), rng.randint(1, 3))):
+                if n == "sex":
+                    terms.append(["atom", "sex", rng.choice(["==", "!="]), rng.choice(["Female", "Male"])])
+                else:
+                    vals = sorted({t[names.index(n)] for tb, names in zip(tabs, level_sets) if n in names for t in tb["index"]})
+                    terms.append(["atom", n, rng.choice([">", ">=", "<", "==", "!="]), rng.choice(vals)])
+            rng.shuffle(terms)
+            filters.append({"terms": terms, "draw": None, "pos": 0})
+            fm = len(filters)
+            keys_m = rng.sample(["pop.structure", "cause.flu.incidence", "risk.theta", "cause.tb.prevalence"], len(tabs))
+            script = [{"op": "write", "key": k, "data": tb} for k, tb in zip(keys_m, tabs)] + [{"op": "reopen", "f": fm}]
+            for _ in range(rng.randint(2, 3)):
+                order = keys_m[:]
+                rng.shuffle(order)
+                script += [{"op": "load", "key": k} for k in order]
+                script.append({"op": "clear"})
+            script += [{"op": "load", "key": rng.choice(keys_m)}, {"op": "reopen", "f": fm}] + [{"op": "load", "key": k} for k in keys_m]
+            keep = max(0, tier_max - len(script))
+            case["ops"] = case["ops"][:keep] + script if rng.random() < 0.5 else script + case["ops"][:keep]
+        elif rng.random() < 0.7:
             # a filter made to BITE on a table of this very case, and the operations through which a filtered view could
             # leak into the file: repeated loads (cache), clear_cache, replace with good data, replace refused inside put
             fr = gen_filterable_frame(rng)
@@ -672,6 +712,16 @@ REPAIRED_CASES = [
              {"op": "load", "key": "pop.theta"}, {"op": "replace", "key": "pop.structure", "data": FRAME12}, {"op": "load", "key": "pop.structure"},
              {"op": "load", "key": "pop.structure"}, {"op": "reopen"}, {"op": "load", "key": "pop.structure"}, {"op": "load", "key": "pop.theta"}],
      "obs_seed": 15},
+    # the handle's filter terms stay what they were opened with (seeded change C19_e: pruning the handle's own list):
+    # first the table WITHOUT the term's column, then the one WITH it, again after clear_cache
+    {"filters": [{"terms": [["atom", "age", ">", 1], ["atom", "draw_id", "==", 2]], "draw": None, "pos": 0}],
+     "ops": [{"op": "write", "key": "pop.structure", "data": {"t": "frame", "names": ["age", "year"],
+                                                            "index": [[0, 2000], [1, 2000], [5, 2000], [10, 2019]], "cols": {"value": [0.0, 0.5, 1.0, 1.5]}}},
+             {"op": "write", "key": "cause.flu.incidence", "data": {"t": "frame", "names": ["draw_id", "sex"],
+                                                                  "index": [[0, "Female"], [2, "Female"], [2, "Male"]], "cols": {"value": [0.0, 0.5, 1.0]}}},
+             {"op": "reopen", "f": 1}, {"op": "load", "key": "cause.flu.incidence"}, {"op": "load", "key": "pop.structure"},
+             {"op": "clear"}, {"op": "load", "key": "pop.structure"}, {"op": "load", "key": "cause.flu.incidence"}, {"op": "clear"},
+             {"op": "load", "key": "cause.flu.incidence"}, {"op": "reopen", "f": 1}, {"op": "load", "key": "pop.structure"}], "obs_seed": 16},
     # d4f70230: an empty group /t/n left behind must not block the JSON write of t.n
     {"ops": [{"op": "write", "key": "t.n.m", "data": {"t": "json", "v": [1]}}, {"op": "remove", "key": "t.n.m"},
              {"op": "write", "key": "t.n", "data": {"t": "json", "v": [2]}}, {"op": "load", "key": "t.n"}], "obs_seed": 6},
@@ -831,6 +881,7 @@ def run_ops(case):
     cur_f = 0               # index of the filter the handle `a` was opened with (0 = none)
     frames = {}             # content id -> frame ever given to write / replace (for the filters' effect table)
     a = Artifact(path)
+    terms_opened = None     # the filter terms the handle in use was opened with
     ref = {}                # the direct oracle's plain map: key -> canonical text expected from an UNFILTERED load
     ref_val = {}            # ... and the value itself (what a filtered handle must return is computed from it)
     used = []               # every key string used so far (for full observations)
@@ -874,6 +925,7 @@ def run_ops(case):
                     new_f = op.get("f", 0) if op.get("f", 0) < len(filters) else 0
                     a = Artifact(path, filter_terms=filter_strings(filters[new_f]))     # raises for refused terms: `a` stays
                     cur_f = new_f
+                    terms_opened = filter_strings(filters[cur_f])
             except Exception as e:  # noqa: BLE001 - the outcome class is the observation
                 err = e
             rejected = err is not None
@@ -914,10 +966,19 @@ def run_ops(case):
                              f"{canon(loaded)[:200]}; last written {ref[k][:200]}; expected through the filter {want_l[:200]}"
                              + (" [an object returned by an earlier load of this key was mutated in place]" if k in tainted else ""),
                              "alias_load" if k in tainted else "other")
+                    if filters[cur_f] is not None and k not in tainted and rng.random() < 0.6:
+                        # ... and what a FRESH handle opened with the same terms returns
+                        fresh = Artifact(path, filter_terms=filter_strings(filters[cur_f])).load(k)
+                        if canon_h(fresh, filters[cur_f]) != canon_h(loaded, filters[cur_f]):
+                            fail(f"step {step_no}: load({k!r}) through the handle in use differs from a fresh handle opened with the same filter "
+                                 f"terms {filter_strings(filters[cur_f])}: {canon(loaded)[:160]} vs {canon(fresh)[:160]}")
                 if mutate_loads and rng.random() < 0.6:
                     mutate(loaded)                 # ... and changes what it was given back
                     tainted.add(k)
                     mutated_to = content(canon_h(loaded, filters[cur_f]))
+            now_terms = a.filter_terms
+            if (list(now_terms) if now_terms else None) != terms_opened:
+                fail(f"step {step_no} ({kind} {k!r}): artifact.filter_terms is now {now_terms}, the handle was opened with {terms_opened}")
             # ---- observations ----
             keys1 = [str(x) for x in a.keys]
             filekeys = [str(x) for x in hdf.get_keys(path)]
@@ -1240,7 +1301,7 @@ def shrink_filt(case):
 def streams(tier):
     return [
         Stream(name="ops", imports="From Viv Require Import Common Artifact.", check="check_ops",
-               gen=gen_ops_quick if tier == "quick" else gen_ops_thorough, run=run_ops, n_quick=60, n_thorough=260,
+               gen=gen_ops_quick if tier == "quick" else gen_ops_thorough, run=run_ops, n_quick=48, n_thorough=260,
                corpus=corpus_ops, shrink=shrink_ops, finding_of=finding_of_ops,
                doc="operation sequences on real HDF files, observed after every operation"),
         Stream(name="filt", imports="From Viv Require Import Common Artifact.", check="check_filt", gen=gen_filt,
